@@ -12,9 +12,13 @@
 (* Switches name the places where the pinned code departs from the property:    *)
 (*   VERIFY_CKSUM  : receivers verify the SCMP checksum (pinned tree: FALSE)    *)
 (*   UNK_ERR_IS_ERR: routers treat unknown types < 128 as errors (pinned: FALSE)*)
+(*   ROUTER_VERIFY_CKSUM: the simulated router verifies the checksum of SCMP     *)
+(*                   requests addressed to it by a router alert (pinned: FALSE)  *)
+(* (VERIFY_CKSUM and UNK_ERR_IS_ERR are TRUE in /repo since the fix: commits     *)
+(*  recorded in known_findings.d/C14.json.)                                      *)
 EXTENDS Naturals, Sequences, FiniteSets
 
-CONSTANTS VERIFY_CKSUM, UNK_ERR_IS_ERR
+CONSTANTS VERIFY_CKSUM, UNK_ERR_IS_ERR, ROUTER_VERIFY_CKSUM
 
 Min2(a, b) == IF a < b THEN a ELSE b
 SatSub(a, b) == IF a > b THEN a - b ELSE 0
@@ -58,8 +62,9 @@ KnownErr == {1, 2, 4, 5, 6}
 IsErrType(t) == t < 128
 Fixed(t) == CASE t \in {1, 2, 4} -> 8 [] t = 5 -> 20 [] t = 6 -> 28 [] t \in {128, 129} -> 8
               [] t \in {130, 131} -> 24 [] OTHER -> 4
-\* what the SDK's parser needs (ScmpMessageLayout::try_from_slice starts with the 8-byte generic view)
-ParseFixed(t) == IF Fixed(t) < 8 THEN 8 ELSE Fixed(t)
+\* what the SDK's parser needs (ScmpMessageLayout::try_from_slice: the generic 4-byte view first, then the
+\* layout of the type; before /repo commit 33798c1 the generic view needed 8 bytes)
+ParseFixed(t) == Fixed(t)
 
 Malformed(d) == ~d.complete \/ ~d.ck
 Class(d) == IF Malformed(d) THEN "malformed"
@@ -85,4 +90,8 @@ RouterAnswers(o) == IF o.scmp /\ ~o.parsed THEN 0          \* try_classify fails
                     ELSE IF RouterSeesError(o) THEN 0 ELSE 1
 \* P-layer for routers: an SCMP error (ANY type below 128) never triggers a message
 PRouterMustNotAnswer(o) == o.scmp /\ o.has4 /\ IsErrType(o.t)
+
+\* I-layer, simulated router answering SCMP requests addressed to it by a router alert
+\* (handle_scmp): echo and traceroute requests are answered, everything else is an error of the simulation
+RouterEcho(d) == IF d.parsed /\ (ROUTER_VERIFY_CKSUM => ~Malformed(d)) /\ d.t \in {128, 130} THEN 1 ELSE 0
 =============================================================================
